@@ -39,6 +39,9 @@ pub struct ScopeCase {
     /// bit i set: the i-th diff-named file was renamed (its old state lives under another path; `git diff -M`)
     #[serde(default)]
     pub renamed: u8,
+    /// symbolic links to files of the tree: (directory index, target file index)
+    #[serde(default)]
+    pub links: Vec<(u8, u16)>,
 }
 
 #[derive(Clone, Copy, Debug, PartialEq, Eq)]
@@ -216,9 +219,46 @@ pub fn check(c: &ScopeCase, probe: &Probe) -> Verdict {
         let fin = cand.and(any_match(&c.ignores, p, &paths).not());
         status.push((p.clone(), fin));
     }
+    // symbolic links to (healthy) files: a link is a file entry of its own, in or out of scope by its own path
+    let mut link_paths: Vec<(String, String)> = vec![];
+    for (k, (d, t)) in c.links.iter().enumerate() {
+        let (target, tstatus) = status[pick_idx(*t, status.len())].clone();
+        if tstatus == T::No || !known_suffix(&target) || diff_set.contains(&target) {
+            continue; // the target would become a tripwire (or change): its content must stay healthy for the link
+        }
+        let ext = target.rsplit('.').next().unwrap().to_string();
+        let dir = DIRS[*d as usize % DIRS.len()];
+        let lp = if dir.is_empty() { format!("ln{k}.{ext}") } else { format!("{dir}/ln{k}.{ext}") };
+        if paths.iter().any(|p| p == &lp || p.starts_with(&format!("{lp}/")) || lp.starts_with(&format!("{p}/"))) || link_paths.iter().any(|(l, _)| l == &lp) {
+            continue;
+        }
+        link_paths.push((lp, target));
+    }
+    for (lp, target) in &link_paths {
+        let pos = if c.globs.is_empty() { T::from(c.interactive) } else { any_match(&c.globs, lp, &paths) };
+        let scan = T::from(walkable(lp)).and(pos);
+        let fin = scan.and(any_match(&c.ignores, lp, &paths).not());
+        // an out-of-scope link cannot be a tripwire (its content is its target's): it is only checked through the key sets
+        let _ = target;
+        status.push((lp.clone(), fin));
+    }
     // new state: in-scope and unspecified files healthy (diff-named ones touched inside their block),
     // out-of-scope files become tripwires
+    for (lp, target) in &link_paths {
+        let abs = sb.root.join(target);
+        let l = sb.root.join(lp);
+        if let Some(parent) = l.parent() {
+            let _ = std::fs::create_dir_all(parent);
+        }
+        let _ = std::os::unix::fs::symlink(&abs, &l);
+    }
+    if !link_paths.is_empty() {
+        probe.class("tree-with-symlinks-to-files");
+    }
     for (p, st) in &status {
+        if link_paths.iter().any(|(l, _)| l == p) {
+            continue;
+        }
         let touched = diff_set.contains(p);
         let healthy = *st != T::No || !known_suffix(p);
         let txt = if known_suffix(p) { content(p, healthy, touched) } else { format!("# <block name=\"txt\">\nunknown suffix garbage </block> </block>\n{}", if touched { "more\n" } else { "" }) };
@@ -330,13 +370,14 @@ pub fn case_strategy() -> BoxedStrategy<ScopeCase> {
         proptest::bool::weighted(0.3),
         any::<u8>(),
         prop_oneof![2 => Just(0u8), 1 => 0u8..8],
+        prop_oneof![2 => Just(vec![]), 1 => proptest::collection::vec((0u8..19, any::<u16>()), 1..3)],
     )
-        .prop_map(|(tree, gitignore, nested_gitignore, globs, ignores, diff_files, interactive, cwd, renamed)| ScopeCase { tree, gitignore, nested_gitignore, globs, ignores, diff_files, interactive, cwd, renamed })
+        .prop_map(|(tree, gitignore, nested_gitignore, globs, ignores, diff_files, interactive, cwd, renamed, links)| ScopeCase { tree, gitignore, nested_gitignore, globs, ignores, diff_files, interactive, cwd, renamed, links })
         .boxed()
 }
 
 pub fn run(run: &mut Run) {
-    run.rule = "random: a tree of 2..13 files over 19 directories (incl. `a`, `b`, `b/b`, `b/a/b`, a name with a space, a dotted directory, hidden directories, git-ignored directories, directories named like files: `lib.py`, `notes.md`, `a/x.py`, `y.rs`) x 11 file names (5 languages, names with spaces/dots, hidden, git-ignored, unknown suffix), a generated .gitignore (+ optional nested one), 0..3 positional and 0..3 --ignore globs of the four documented forms (`*.ext`, `dir/**`, `**/name`, exact path), a real `git diff --cached -M` naming 0..3 of the files (each touched inside its block; some of them renamed, so that the `---` and `+++` paths differ) or interactive mode, started from the root or any sub-directory. Every file holds one uniquely named violating block; files outside the reference scope are rewritten as tripwires (unclosed start tag), so examining one fails the run. Reference scope = ((not hidden and not ignored by `git check-ignore --no-index`) and matches a positional glob — everything when interactive without globs) or named in the diff, minus --ignore matches; `*.ext` on nested paths is unspecified. Compared with the key sets of `list` and of the diagnostics. Non-trivial = a top-level directory `b` together with a diff-named file outside every glob / hit by an ignore glob / under `b/`.".into();
+    run.rule = "random: a tree of 2..13 files over 19 directories (incl. `a`, `b`, `b/b`, `b/a/b`, a name with a space, a dotted directory, hidden directories, git-ignored directories, directories named like files: `lib.py`, `notes.md`, `a/x.py`, `y.rs`) x 11 file names (5 languages, names with spaces/dots, hidden, git-ignored, unknown suffix), a generated .gitignore (+ optional nested one), in a third of the cases 1..2 symbolic links to healthy files of the tree, 0..3 positional and 0..3 --ignore globs of the four documented forms (`*.ext`, `dir/**`, `**/name`, exact path), a real `git diff --cached -M` naming 0..3 of the files (each touched inside its block; some of them renamed, so that the `---` and `+++` paths differ) or interactive mode, started from the root or any sub-directory. Every file holds one uniquely named violating block; files outside the reference scope are rewritten as tripwires (unclosed start tag), so examining one fails the run. Reference scope = ((not hidden and not ignored by `git check-ignore --no-index`) and matches a positional glob — everything when interactive without globs) or named in the diff, minus --ignore matches; `*.ext` on nested paths is unspecified. Compared with the key sets of `list` and of the diagnostics. Non-trivial = a top-level directory `b` together with a diff-named file outside every glob / hit by an ignore glob / under `b/`.".into();
     run.assumptions = vec![
         "git's own ignore matcher is the authority on .gitignore semantics; globs are matched by a harness-side matcher for the four documented forms only".into(),
         "default a/ b/ diff prefixes (no --no-prefix), paths free of characters git quotes".into(),
